@@ -90,6 +90,22 @@ def _work(pid, ob, conn):
                             rep = {"falsy": f, "reason": r}
                             break
                 res["replay"] = rep
+                ob2 = pm.residual(ob) if (rep is not None and hasattr(pm, "residual")) else None
+                if ob2 is not None:
+                    d2 = ob2["desc"]
+                    g2 = _guard(lambda *a: body(d2, SYM, *a))
+                    r2 = engine.analyze(mod, g2, ob["budget"], twin=False, per_path=ob.get("per_path"))
+                    rep2 = None
+                    if r2["verdict"] == "refuted" and r2["cex"] is not None:
+                        for f in FALSY:
+                            rr = replay_body(pm, ob2, r2["cex"], f)
+                            if rr is not None:
+                                rep2 = {"falsy": f, "reason": rr}
+                                break
+                    res["residual"] = {"verdict": r2["verdict"], "cex": r2["cex"], "replay": rep2, "detail": r2.get("detail")}
+                    res["paths"] += r2["paths"]
+                    res["queries"] += r2["queries"]
+                    res["solver_s"] += r2["solver_s"]
             try:
                 os.unlink(mod.__vf_path__)
             except OSError:
@@ -243,6 +259,16 @@ def check(pid, tier, seed, only=None):
             hit = [f for f in known if f.get("key") == key]
             if hit:
                 knowns.append((oid, key, hit[0]))
+                rs = r.get("residual")
+                if rs is not None:
+                    # same obligation against an oracle that models the recorded defect
+                    if rs["verdict"] == "refuted" and rs.get("replay"):
+                        ob2 = pm.residual(ob)
+                        key2 = pm.finding_key(ob2, rs["cex"], rs["replay"]["reason"])
+                        path = write_replay(pid, dict(ob2, oid=ob["oid"] + "#residual"), rs["cex"], rs["replay"]["falsy"], rs["replay"]["reason"])
+                        violations.append((oid + "#residual", key2, path, rs["replay"]["reason"]))
+                    elif rs["verdict"] != "confirmed":
+                        inconc.append(oid + "#residual")
             else:
                 path = write_replay(pid, ob, r["cex"], rep["falsy"], rep["reason"])
                 violations.append((oid, key, path, rep["reason"]))
